@@ -10,6 +10,7 @@ package http2_test
 import (
 	"fmt"
 	"io"
+	"math"
 	"math/rand"
 	"net/http"
 	"strconv"
@@ -31,6 +32,7 @@ type vfFlowStream struct {
 	peerEnd  bool // we (the client) sent END_STREAM or RST
 	sentPay  int  // payload bytes sent so far (pattern offset)
 	bodyGone bool
+	decl     int // declared content-length, -1 if none
 }
 
 type vfFlowSrv struct {
@@ -181,6 +183,11 @@ func vfFlowServerScenario(tb testing.TB, env *vfEnv, tn int, rnd *rand.Rand) {
 	unit := []int{1, 100, 4096, 16384, 70000}[rnd.Intn(5)]
 	nextID := uint32(1)
 	nops := env.Int("ops", 40)
+	// blockedW: episodes in which the client stops reading, so that the server's writer is stuck
+	// in a flush and everything the server wants to send (RST_STREAM, WINDOW_UPDATE) stays queued
+	// while more DATA arrives; the client keeps within the windows it has been told about.
+	blockedW := tn%5 == 2
+	blockAt := 8 + rnd.Intn(12)
 	for k := 0; k < nops && !d.dead; k++ {
 		var open []*vfFlowStream
 		for _, id := range d.order {
@@ -190,6 +197,54 @@ func vfFlowServerScenario(tb testing.TB, env *vfEnv, tn int, rnd *rand.Rand) {
 		}
 		pick := func() *vfFlowStream { return open[rnd.Intn(len(open))] }
 		x := rnd.Intn(100)
+		if blockedW && (k == blockAt || k == blockAt+9) {
+			var s *vfFlowStream
+			for _, c := range open {
+				if !c.peerEnd && (s == nil || c.decl >= 0 && s.decl < 0) {
+					s = c
+				}
+			}
+			if s == nil {
+				blockAt++
+				continue
+			}
+			nc := st.cc.(*synctestNetConn)
+			nc.SetReadBufferSize(0)
+			st.writePing(false, [8]byte{1, 2, 3, 4, 5, 6, 7, byte(k)}) // the ack's flush cannot complete
+			st.sync()
+			for j := 0; j < 2+rnd.Intn(4) && !s.peerEnd; j++ {
+				room := d.ca
+				if d.sa[s.id] < room {
+					room = d.sa[s.id]
+				}
+				ln := 1 + rnd.Intn(2*unit)
+				if j == 0 && s.decl >= 0 {
+					ln = s.decl - s.sentPay + 1 + rnd.Intn(3) // beyond the declared Content-Length
+				}
+				if int64(ln) > room {
+					ln = int(room)
+				}
+				if ln > 1<<20 {
+					ln = 1 << 20
+				}
+				if ln <= 0 {
+					break
+				}
+				pay := make([]byte, ln)
+				for i := range pay {
+					pay[i] = vfPat(s.id, s.sentPay+i)
+				}
+				s.sentPay += ln
+				st.writeData(s.id, false, pay)
+				d.emit(map[string]any{"e": "p_data", "s": s.id, "len": ln, "pad": 0, "es": false})
+				d.ca -= int64(ln)
+				d.sa[s.id] -= int64(ln)
+				st.sync()
+			}
+			nc.SetReadBufferSize(math.MaxInt)
+			d.settle()
+			continue
+		}
 		switch {
 		case x < 12 || len(open) == 0:
 			if len(d.order) >= 6 {
@@ -206,7 +261,7 @@ func vfFlowServerScenario(tb testing.TB, env *vfEnv, tn int, rnd *rand.Rand) {
 			}
 			st.writeHeaders(HeadersFrameParam{StreamID: id, BlockFragment: st.encodeHeader(hdrs...), EndStream: !hasBody, EndHeaders: true})
 			d.emit(map[string]any{"e": "open", "s": id, "body": hasBody, "decl": decl})
-			str := &vfFlowStream{id: id, peerEnd: !hasBody}
+			str := &vfFlowStream{id: id, peerEnd: !hasBody, decl: decl}
 			d.strs[id] = str
 			d.order = append(d.order, id)
 			d.sa[id] = d.siw
